@@ -88,9 +88,12 @@ def render(spec):
             typ = repr(a['type']) if a['rel'] else a['type']
             args = [typ] + ['%s=%r' % (k, _lit(v)) for k, v in a['opts'].items()]
             body.append('%s = %s(%s)' % (a['name'], a['cls'], ', '.join(args)))
+        own = set(a['name'] for a in e['attrs'])
+        def ref(n):      # an attribute inherited from a base class is written Base.attr
+            return n if n in own else '%s.%s' % (owner_of(spec, e['name'], n), n)
         if e['pk']: body.append('PrimaryKey(%s)' % ', '.join(e['pk']))
-        for k in e['keys']: body.append('composite_key(%s)' % ', '.join(k))
-        for k in e['indexes']: body.append('composite_index(%s)' % ', '.join(k))
+        for k in e['keys']: body.append('composite_key(%s)' % ', '.join(map(ref, k)))
+        for k in e['indexes']: body.append('composite_index(%s)' % ', '.join(map(ref, k)))
         out.extend('    ' + b for b in (body or ['pass']))
     return '\n'.join(out) + '\n'
 
@@ -100,6 +103,16 @@ def _lit(v):
 # ---- spec helpers used by the oracle -------------------------------------------------------------------------
 def ent_by_name(spec):
     return {e['name']: e for e in spec['entities']}
+
+def owner_of(spec, ename, attrname):
+    """name of the entity (ename or one of its bases, breadth first) that declares attrname"""
+    ents = ent_by_name(spec)
+    todo = [ename]
+    while todo:
+        n = todo.pop(0)
+        if any(a['name'] == attrname for a in ents[n]['attrs']): return n
+        todo.extend(ents[n]['bases'])
+    return ename
 
 def root_of(spec, name):
     ents = ent_by_name(spec)
@@ -328,8 +341,61 @@ def fam_inherit(quick):
                         d.get('Sib')['attrs'].append(attr('sib_val', 'Required', 'int'))
                     yield d.done()
 
+# ---- a unique / indexed / reference attribute x the composite keys and indexes that also contain its column(s) ----
+# target attribute 't': (name, is reference, class, type, options)
+KEYMIX_TARGETS = [
+    ('plain-int', False, 'Required', 'int', {}),
+    ('unique-int', False, 'Required', 'int', dict(unique=True)),
+    ('unique-optional-str', False, 'Optional', 'str', dict(unique=True)),
+    ('index-true', False, 'Required', 'int', dict(index=True)),
+    ('index-named', False, 'Optional', 'int', dict(index='ix_t')),
+    ('unique-index-named', False, 'Required', 'int', dict(unique=True, index='ux_t')),
+    ('ref', True, 'o2m-r', None, {}),
+    ('ref-optional', True, 'o2m-o', None, {}),
+    ('ref-index-true', True, 'o2m-r', None, dict(index=True)),
+    ('ref-index-named', True, 'o2m-o', None, dict(index='ix_t')),
+    ('ref-index-false', True, 'o2m-r', None, dict(index=False)),
+    ('ref-unique', True, 'o2m-r', None, dict(unique=True)),
+    ('ref-one-to-one', True, 'o2o-ro', None, {}),
+]
+KEYMIX_COMPOSITES = ('key', 'index', 'pk', 'key+index')
+KEYMIX_POSITIONS = ('leading', 'trailing', 'middle')
+# where the composite is declared: in the entity that declares t; in a subclass together with an attribute of the
+# subclass (composite_key(Base.t, x)); in a subclass over attributes that are all inherited
+KEYMIX_WHERE = ('same', 'subclass', 'subclass-inherited')
+
+def fam_keymix(quick):
+    for tname, is_rel, cls, typ, opts in KEYMIX_TARGETS:
+        for comp in KEYMIX_COMPOSITES:
+            for pos in KEYMIX_POSITIONS:
+                for where in KEYMIX_WHERE:
+                    for extpk in (('auto', 'comp') if is_rel else (None,)):
+                        for pk in ('auto', 'comp'):
+                            if comp == 'pk' and (where != 'same' or pk != 'auto' or cls in ('Optional', 'o2m-o')): continue
+                            if quick and (pos == 'middle' or pk == 'comp' or comp == 'key+index'): continue
+                            if quick and where == 'subclass-inherited' and extpk == 'comp': continue
+                            tag = dict(family='keymix', target=tname, composite=comp, position=pos, where=where, pk=pk)
+                            if is_rel: tag['extpk'] = extpk
+                            d = Diagram(**tag)
+                            holder = d.ent('Holder', 'comprel' if comp == 'pk' else pk)
+                            if is_rel:
+                                d.ent('Ext', extpk)
+                                d.rel(cls, 'Ext', 'holders', 'Holder', 't', child_opts=opts)
+                            else: holder['attrs'].append(attr('t', cls, typ, **opts))
+                            decl = holder
+                            if where != 'same': decl = d.ent('Sub', bases=['Holder'])
+                            others = ['x', 'y'] if pos == 'middle' else ['x']
+                            for n in others: (holder if where == 'subclass-inherited' else decl)['attrs'].append(attr(n, 'Required', 'int'))
+                            members = dict(leading=['t', 'x'], trailing=['x', 't'], middle=['x', 't', 'y'])[pos]
+                            if comp == 'pk': decl['pk'] = members
+                            elif comp == 'key': decl['keys'].append(members)
+                            elif comp == 'index': decl['indexes'].append(members)
+                            else:       # a key and an index in opposite orders: t leads one and trails the other
+                                decl['keys'].append(members); decl['indexes'].append(members[::-1])
+                            yield d.done()
+
 def base_diagrams(quick):
-    return itertools.chain(fam_single(), fam_pair(quick), fam_self(quick), fam_triple(quick), fam_inherit(quick))
+    return itertools.chain(fam_single(), fam_pair(quick), fam_self(quick), fam_triple(quick), fam_inherit(quick), fam_keymix(quick))
 
 # ---- naming overlays ------------------------------------------------------------------------------------------
 def overlay_bases(quick):
